@@ -65,7 +65,7 @@ Print Assumptions C06_numbers_kept.
     ([pd_nr]) and Period@start = k*P: they tile wall-clock time. *)
 Theorem C06_tiles : forall pph seg mode cont ast snr st now ases ps,
   1 <= pph <= 3600 -> 0 < seg -> ast <= st <= now ->
-  splitPeriod pph seg mode cont ast snr st now ases = Ok ps ->
+  splitPeriod false pph seg mode cont ast snr st now ases = Ok ps ->
   let P := periodDurOf pph in
   let k0 := (st - ast) / (P * 1000) in
   let k1 := (now - ast) / (P * 1000) in
@@ -81,8 +81,8 @@ Print Assumptions C06_tiles.
     MPDs), a period's start is its number times P, so equal ids have equal starts and vice versa. *)
 Theorem C06_ids_stable : forall pph seg mode cont ast snr st1 now1 st2 now2 ases1 ases2 ps1 ps2 p1 p2,
   1 <= pph <= 3600 -> 0 < seg -> ast <= st1 -> ast <= now1 -> ast <= st2 -> ast <= now2 ->
-  splitPeriod pph seg mode cont ast snr st1 now1 ases1 = Ok ps1 ->
-  splitPeriod pph seg mode cont ast snr st2 now2 ases2 = Ok ps2 ->
+  splitPeriod false pph seg mode cont ast snr st1 now1 ases1 = Ok ps1 ->
+  splitPeriod false pph seg mode cont ast snr st2 now2 ases2 = Ok ps2 ->
   In p1 ps1 -> In p2 ps2 ->
   pd_start p1 = pd_nr p1 * periodDurOf pph /\
   (pd_nr p1 = pd_nr p2 <-> pd_start p1 = pd_start p2).
@@ -102,7 +102,7 @@ Print Assumptions C06_ids_stable.
     written next to an empty timeline. *)
 Theorem C06_partition : forall pph seg mode cont ast snr st now ases ps j a es,
   1 <= pph <= 3600 -> 0 < seg -> ast <= st <= now ->
-  splitPeriod pph seg mode cont ast snr st now ases = Ok ps ->
+  splitPeriod false pph seg mode cont ast snr st now ases = Ok ps ->
   nth_error ases j = Some a -> templateType mode a <> MNumber -> a_tl a = Some es ->
   let P := periodDurOf pph in
   let k0 := (st - ast) / (P * 1000) in
@@ -132,7 +132,7 @@ Print Assumptions C06_partition_open.
     period: the one containing its start. *)
 Theorem C06_exactly_one : forall pph seg mode cont ast snr st now ases ps j a es,
   1 <= pph <= 3600 -> 0 < seg -> ast <= st <= now ->
-  splitPeriod pph seg mode cont ast snr st now ases = Ok ps ->
+  splitPeriod false pph seg mode cont ast snr st now ases = Ok ps ->
   nth_error ases j = Some a -> templateType mode a <> MNumber -> a_tl a = Some es ->
   let P := periodDurOf pph in
   let k0 := (st - ast) / (P * 1000) in
@@ -153,7 +153,7 @@ Print Assumptions C06_exactly_one.
     c06-ato-segment-beyond-last-period).  The hypothesis of [C06_partition_open] excludes it. *)
 Theorem C06_late_segment_refuted :
   existsb (fun x => fst x =? 5400000) (expandP atoTL) = true /\
-  splitPeriod 60 2000 MTimelineTime false 0 0 0 59000
+  splitPeriod false 60 2000 MTimelineTime false 0 0 0 59000
     [ {| a_image := false; a_ts := Some 90000; a_dur := None; a_startNr := None; a_tl := Some atoTL |} ] =
   Ok [ {| pd_nr := 0; pd_start := 0;
           pd_as := [ {| o_pto := 0; o_startNr := None; o_tl := Some [ {| p_t := Some 0; p_d := 180000; p_r := 29 |} ]; o_cont := false |} ] |} ].
@@ -189,7 +189,7 @@ Print Assumptions C06_guard_aligned.
 (** start_1000 and snr_5 (commits 961c9dc, bde286d): periods are counted from
     availabilityStartTime and numbers are offset by the start number. *)
 Theorem C06_snr_start_example :
-  splitPeriod 60 2000 MNumber false 1000000 5 1060500 1120500
+  splitPeriod false 60 2000 MNumber false 1000000 5 1060500 1120500
     [ {| a_image := false; a_ts := None; a_dur := Some 2; a_startNr := Some 5; a_tl := None |} ] =
   Ok [ {| pd_nr := 1; pd_start := 60; pd_as := [ {| o_pto := 60; o_startNr := Some 35; o_tl := None; o_cont := false |} ] |};
        {| pd_nr := 2; pd_start := 120; pd_as := [ {| o_pto := 120; o_startNr := Some 65; o_tl := None; o_cont := false |} ] |} ].
@@ -197,9 +197,9 @@ Proof. exact snr_start_example. Qed.
 Print Assumptions C06_snr_start_example.
 
 (** publishTime in multi-period $Number$ mode = availabilityStartTime + start of the last period. *)
-Theorem C06_publish_number : forall loopMS c now tsbdMS pph seg cont ases ps pt,
+Theorem C06_publish_number : forall w loopMS c now tsbdMS pph seg cont ases ps pt,
   1 <= pph <= 3600 -> 0 < seg -> startS c * 1000 <= now -> 0 <= tsbdMS ->
-  livePeriods loopMS c now tsbdMS pph seg MNumber cont ases = Ok (ps, pt) ->
+  livePeriods w loopMS c now tsbdMS pph seg MNumber cont ases = Ok (ps, pt) ->
   pt = Some (startS c + (now - startS c * 1000) / (periodDurOf pph * 1000) * periodDurOf pph).
 Proof. exact livePeriods_publish. Qed.
 Print Assumptions C06_publish_number.
@@ -209,10 +209,10 @@ Print Assumptions C06_publish_number.
 (** A period duration that is not a multiple of asset.SegmentDurMS is rejected with an error (the
     typed error errPeriodDuration, which the handler answers with 400 since commit e7eedfb), and
     nothing else is. *)
-Theorem C06_reject : forall pph seg mode cont ast snr st now ases,
+Theorem C06_reject : forall w pph seg mode cont ast snr st now ases,
   1 <= pph <= 3600 -> 0 < seg ->
   ((periodDurOf pph * 1000) mod seg <> 0 <->
-   exists e, splitPeriod pph seg mode cont ast snr st now ases = Err e).
+   exists e, splitPeriod w pph seg mode cont ast snr st now ases = Err e).
 Proof. exact splitPeriod_reject. Qed.
 Print Assumptions C06_reject.
 
@@ -221,8 +221,8 @@ Print Assumptions C06_reject.
     2000 ms from its audio track, with period 1 starting inside video segment 1798).  With the
     2.002 s of that asset every periods-per-hour value is rejected: no whole number of seconds
     3600/n is a multiple of 2.002 s. *)
-Theorem C06_reject_2997 : forall pph mode cont ast snr st now ases,
-  1 <= pph <= 3600 -> exists e, splitPeriod pph 2002 mode cont ast snr st now ases = Err e.
+Theorem C06_reject_2997 : forall w pph mode cont ast snr st now ases,
+  1 <= pph <= 3600 -> exists e, splitPeriod w pph 2002 mode cont ast snr st now ases = Err e.
 Proof. exact reject_2997. Qed.
 Print Assumptions C06_reject_2997.
 
@@ -238,15 +238,15 @@ Print Assumptions C06_continuity.
 Theorem C06_accepted_total : forall pph seg mode cont ast snr st now ases,
   1 <= pph <= 3600 -> 0 < seg -> (periodDurOf pph * 1000) mod seg = 0 -> ast <= st <= now ->
   Forall (wellShaped mode) ases ->
-  exists ps, splitPeriod pph seg mode cont ast snr st now ases = Ok ps.
+  exists ps, splitPeriod false pph seg mode cont ast snr st now ases = Ok ps.
 Proof. exact splitPeriod_total. Qed.
 Print Assumptions C06_accepted_total.
 
 (** periods-per-hour outside 1..3600 is refused by the configuration check (commit 9fbd9f7,
     HTTP 400) before splitPeriod is reached ... *)
-Theorem C06_pph_range : forall loopMS c now tsbdMS pph seg mode cont ases,
+Theorem C06_pph_range : forall w loopMS c now tsbdMS pph seg mode cont ases,
   pph <= 0 \/ 3600 < pph ->
-  livePeriods loopMS c now tsbdMS pph seg mode cont ases = Err pphRangeMsg.
+  livePeriods w loopMS c now tsbdMS pph seg mode cont ases = Err pphRangeMsg.
 Proof. exact livePeriods_pph_range. Qed.
 Print Assumptions C06_pph_range.
 
@@ -254,10 +254,10 @@ Print Assumptions C06_pph_range.
     above 3600 (this was the panic of periods_0 / periods_5000 before the fix; the function is
     still exercised directly by the correspondence through the hook). *)
 Theorem C06_pph_guard_needed :
-  (forall seg mode cont ast snr st now ases,
-     splitPeriod 0 seg mode cont ast snr st now ases = Panic "splitPeriod: integer divide by zero") /\
-  (forall pph seg mode cont ast snr st now ases, 3600 < pph ->
-     splitPeriod pph seg mode cont ast snr st now ases = Panic "splitPeriod: integer divide by zero").
+  (forall w seg mode cont ast snr st now ases,
+     splitPeriod w 0 seg mode cont ast snr st now ases = Panic "splitPeriod: integer divide by zero") /\
+  (forall w pph seg mode cont ast snr st now ases, 3600 < pph ->
+     splitPeriod w pph seg mode cont ast snr st now ases = Panic "splitPeriod: integer divide by zero").
 Proof. exact (conj splitPeriod_pph_zero splitPeriod_pph_big). Qed.
 Print Assumptions C06_pph_guard_needed.
 
@@ -266,7 +266,7 @@ Print Assumptions C06_pph_guard_needed.
     periods are P0 (38 s .. 60 s) and P1 (60 s .. 100 s). *)
 Example C06_example :
   goodTL exTL (Some 19) 90000 120 /\
-  splitPeriod 60 2000 MTimelineNr true 0 0 40000 100000 [exAS] =
+  splitPeriod false 60 2000 MTimelineNr true 0 0 40000 100000 [exAS] =
   Ok [ {| pd_nr := 0; pd_start := 0;
           pd_as := [ {| o_pto := 0; o_startNr := Some 19;
                         o_tl := Some [ {| p_t := Some 3420000; p_d := 180000; p_r := 10 |} ]; o_cont := true |} ] |};
